@@ -68,6 +68,7 @@ class Stats:
 class Ctx:
     def __init__(self):
         self.timeout = 10000  # ms per query (per backend attempt)
+        self.decide_timeout = 4000  # ms for branch-feasibility queries (unknown = treated as feasible)
         self.stats = Stats()
         self.max_decisions = 400
         self.hard_reset()
@@ -166,8 +167,8 @@ class Ctx:
                     return res, s, "smt/no-axioms"
         full = exprs + axioms
         plan = [("nlsat", min(timeout, 2500)), ("smt", timeout), ("nlsat", timeout)]
-        if timeout <= 2500:
-            plan = [("nlsat", timeout), ("smt", timeout)]
+        if timeout <= 5000:
+            plan = [("nlsat", timeout // 2), ("smt", timeout // 2)]
         last = None
         for backend, to in plan:
             res, s = self._run(backend, full, to)
@@ -208,7 +209,7 @@ class Ctx:
         if i < len(self.prefix):
             val = self.prefix[i]
         else:
-            r = self.check(self.pc + [cond])
+            r = self.check(self.pc + [cond], timeout=self.decide_timeout)
             if r == "unsat":
                 val, forced = False, True
             else:
@@ -708,7 +709,7 @@ def explore(fn, max_paths=500, verbose=False, on_path=None):
             if forced:
                 continue
             pc_i = list(CTX.pre) + [c if v else z3.Not(c) for c, v, _ in trace[:i]]
-            r = CTX.check(pc_i + [z3.Not(cond) if val else cond])
+            r = CTX.check(pc_i + [z3.Not(cond) if val else cond], timeout=CTX.decide_timeout)
             if r != "unsat":
                 stack.append([v for _, v, _ in trace[:i]] + [not val])
     explore.truncated = truncated
